@@ -80,6 +80,26 @@ class Cfgen:
         return ' '.join(w)
 
 
+def tet_vol(a, b, c, d):
+    m11 = (a[0] - d[0]) * ((b[1] - d[1]) * (c[2] - d[2]) - (c[1] - d[1]) * (b[2] - d[2]))
+    m12 = (a[1] - d[1]) * ((b[0] - d[0]) * (c[2] - d[2]) - (c[0] - d[0]) * (b[2] - d[2]))
+    m13 = (a[2] - d[2]) * ((b[0] - d[0]) * (c[1] - d[1]) - (c[0] - d[0]) * (b[1] - d[1]))
+    return -(m11 - m12 + m13) / 6.0
+
+
+def orient(g):
+    """positive volume / counter-clockwise area for every cell (the quality kernels and the smoother need it)"""
+    out = []
+    for c in g.cells:
+        p = [g.v[i][0] for i in c]
+        if len(c) == 4 and tet_vol(*p) < 0:
+            c = (c[1], c[0], c[2], c[3])
+        if len(c) == 3 and g.planar and (p[1][0] - p[0][0]) * (p[2][1] - p[0][1]) - (p[2][0] - p[0][0]) * (p[1][1] - p[0][1]) < 0:
+            c = (c[1], c[0], c[2])
+        out.append(c)
+    g.cells = out
+
+
 def edge_star(rng, planar):
     """edge 0-1 with its cells; vertex 2.. ring; the last vertex is the split vertex"""
     g = Cfgen(rng, planar)
@@ -108,6 +128,7 @@ def edge_star(rng, planar):
     w = rng.uniform(0.05, 0.95)
     pa, pb = g.v[a][0], g.v[b][0]
     nw = g.node(*[(1 - w) * pa[i] + w * pb[i] for i in range(3)])
+    orient(g)
     return g, a, b, nw
 
 
@@ -134,6 +155,7 @@ def vertex_star(rng, planar):
             g.cells.append((n1, ring[i], ring[(i + 1) % k], top))
             if rng.random() < 0.8:
                 g.cells.append((n1, ring[(i + 1) % k], ring[i], bot))
+    orient(g)
     return g, n0, n1
 
 
@@ -352,6 +374,19 @@ def gen_param(rng, tier):
         else:
             g, n0, n1 = vertex_star(rng, planar)
             ops.append(g.line('qcollapse', n0, n1, 0, 10 ** rng.uniform(-3, -0.05), 0.1))
+    for _ in range(120 if tier == 'quick' else 1000):
+        # the real interior smoother under a band placed around the present edge lengths at the vertex: with
+        # post_max below them every one of its 8 tries must be refused
+        g, n0, n1 = vertex_star(rng, False)
+        rs = [ratio(g.v[n1], g.v[x]) for c in g.cells if n1 in c for x in c if x != n1]
+        u = rng.random()
+        if u < 0.4:
+            pmin, pmax = min(rs) * 0.5, max(rs) * rng.choice([0.5, 0.9, 0.99, 1.0, 1.01])
+        elif u < 0.7:
+            pmin, pmax = min(rs) * rng.choice([0.99, 1.0, 1.01, 1.5]), max(rs) * 2
+        else:
+            pmin, pmax = min(rs) * 0.3, max(rs) * 3
+        ops.append(g.line('qsmooth', n0, n1, 0, pmin, pmax))
     ops += ['param 0 0', 'bogus']
     return ops
 
@@ -378,6 +413,7 @@ def oracle_param(ops, impl):
 PARAM = Stream('unit_param', 'h_unit', 'unit', gen_param, oracle=oracle_param, kind='validate', whitebox=['ref_adapt'],
                harness_args=('param',), driver_args=('validate',), session='reset',
                nontrivial=lambda op, out: out.startswith('P') or out.startswith('Q'))
+# (a qsmooth op prints two record lines, `QM MB ...` and `QM ME ...`)
 
 
 # ---------------------------------------------------------------- hooked real passes
@@ -393,6 +429,8 @@ def gen_run(rng, tier):
         ops.append('run 3 3 %d iso %s %s' % (rng.randrange(1, 99), hx(rng.uniform(0.25, 0.35)), 'aa'))
         ops.append('run 3 4 %d iso %s %s' % (rng.randrange(1, 99), hx(rng.uniform(0.6, 0.9)), 'aa'))
         ops.append('run 3 3 %d aniso %s %s' % (rng.randrange(0, 99), hx(rng.uniform(0.15, 0.25)), 'aa'))
+        # every edge a little longer than collapse_ratio (axis edges 0.72..0.83): hardly any legitimate target
+        ops.append('run 3 4 %d iso %s %s' % (rng.randrange(0, 99), hx(rng.uniform(0.40, 0.46)), 'ca'))
         ops.append('run 3 3 %d %s %s %s' % (rng.randrange(1, 99), rng.choice(['lin', 'bl']), hx(rng.uniform(0.2, 0.3)),
                                             'a' + ''.join(rng.choice('scma') for _ in range(3))))
     ops += ['run 4 3 1 iso %s a' % hx(0.3), 'run 2 3 1 iso 0 a', 'bogus']
